@@ -207,7 +207,7 @@ def run(ctx):
     case = {"type": "align", "continuum": d6, "dissim": {"kind": "positional", "delta": 1.0}, "windows": [1, 2, 3, 4, 5]}
     ctx.begin_case(case)
     check_case(ctx, case)
-    n_cases = ctx.scale(140, 1600)
+    n_cases = ctx.scale(140, 5000)
     for i in range(n_cases):
         if ctx.out_of_time():
             break
@@ -233,7 +233,7 @@ def run(ctx):
     # fast-mode gamma: small (exact) and larger sparse continua (windowed)
     gd = {"kind": "combined", "alpha": 1.0, "beta": 1.0, "delta": 1.0, "pos": None, "cat": None}
     shapes_windowed = [(3, 40), (4, 14), (4, 18), (5, 12)]
-    for i in range(ctx.scale(10, 60)):
+    for i in range(ctx.scale(10, 120)):
         if ctx.time_left() < -120:
             break
         if i % 2 == 0:
